@@ -51,6 +51,12 @@ def gen_case(rng, ctx):
         cls, ds = gen.dataset(rng, cls="D23", n=rng.choice([4, 5, 6, 7]), mmax=6)
         ds = libx.normalise_raw(ds)
         return {"ds": ds, "scheme": gen.scheme(rng, "S15 S15 S15 S13")[1], "dcls": cls, "scls": "S15"}
+    if rng.random() < 0.06:
+        # every pair inverted as often as not, the decision left to who ranks whom, under schemes whose penalties for
+        # unranked elements are 2^-20 of the others: costs equal up to a relative 1e-6 and different in fact
+        cls, ds = gen.dataset(rng, cls="D25", n=rng.choice([3, 4, 5, 6]), mmax=6)
+        ds = libx.normalise_raw(ds)
+        return {"ds": ds, "scheme": gen.scheme(rng, "S17 S17 S16")[1], "dcls": cls, "scls": "S17"}
     if rng.random() < 0.25:
         # critical band: small pure cycles under a scheme whose tie cost sits around 1/3 .. 1/2 .. 1 of the inversion cost
         cls, ds = gen.dataset(rng, classes="D9 D9 D11", n=rng.choice([3, 3, 4, 5, 6]), mmax=6)
@@ -80,7 +86,7 @@ def gen_case(rng, ctx):
         return {"ds": ds, "scheme": gen.scheme_unranked_free(rng), "dcls": cls, "scls": "unranked-free"}
     cls, ds = gen.dataset(rng, classes="D11 D11 D11 D9 D9 D2 D2 D2 D3 D4 D7 D10 D8 D15 D15 D20", nmax=nmax, mmax=6)
     ds = libx.normalise_raw(ds)
-    scls, sch = gen.scheme(rng, "S1 S2 S3 S3 S3 S6 S9 S11 S11 S11")
+    scls, sch = gen.scheme(rng, "S1 S2 S3 S3 S3 S6 S9 S11 S11 S11 S16 S16")
     return {"ds": ds, "scheme": sch, "dcls": cls, "scls": scls}
 
 
